@@ -304,6 +304,11 @@ func (s *EMTState) edgeMultiComputeRecordSpecs(raw []RawType, frameIndexOfraw0 F
 	recordSpecs := make([]RecordSpec, 0)
 	if iFirst < maxLookback { // state has been reset
 		iFirst = maxLookback
+		if s.enableZeroThreshold {
+			// The kink model can move a trigger one sample earlier than where it was found.
+			// Start one sample later so that a full npre samples precede even a moved trigger.
+			iFirst++
+		}
 		if s.iFirstCheckSentinel {
 			log.Println("reseting edge multi state unexpectedly")
 		}
